@@ -4,9 +4,11 @@ package harness
 
 import (
 	"context"
+	"errors"
 	"fmt"
 	"google.golang.org/grpc/credentials"
 	"io"
+	"runtime/pprof"
 	"strings"
 	"sync"
 	"testing"
@@ -67,6 +69,7 @@ type c10Case struct {
 	Ends       string `json:",omitempty"`
 	EndsStream bool   `json:",omitempty"`
 	EndsInt    bool   `json:",omitempty"` // with a server interceptor on the channel
+	EndsCause  bool   `json:",omitempty"` // the caller's context ends with a cause of its own (WithCancelCause / WithTimeoutCause)
 	MutCaller  bool   // streaming callers modify the very map they attached, after the call has started and before the handler looks
 }
 
@@ -114,11 +117,13 @@ func (p *c10Probe) fault(format string, a ...interface{}) {
 
 func c10Ends(c c10Case) *Outcome {
 	o := &Outcome{NonTrivial: true}
-	o.class("context-end/%s/stream=%v/interceptor=%v", c.Ends, c.EndsStream, c.EndsInt)
+	o.class("context-end/%s/stream=%v/interceptor=%v/cause=%v", c.Ends, c.EndsStream, c.EndsInt, c.EndsCause)
 	type seenT struct {
 		ctxErr, ccErr error
 		cc            context.Context
 		waited        bool
+		label         string
+		hasLabel      bool
 	}
 	res := make(chan seenT, 1)
 	started := make(chan struct{})
@@ -126,6 +131,7 @@ func c10Ends(c c10Case) *Outcome {
 		close(started)
 		var s seenT
 		s.cc = inprocgrpc.ClientContext(ctx)
+		s.label, s.hasLabel = pprof.Label(ctx, "tenant")
 		if c.Ends != "live" {
 			select {
 			case <-ctx.Done():
@@ -163,21 +169,36 @@ func c10Ends(c c10Case) *Outcome {
 		})
 	}
 	ch.RegisterService(newServiceDesc(), svc)
-	ctx, cancel := context.WithCancel(context.Background())
+	// the caller's context carries profiler labels (set by middleware with pprof.Do): values of the caller's context like
+	// any other, which a handler does not get to see
+	base := pprof.WithLabels(context.Background(), pprof.Labels("tenant", "acme-secret"))
+	ctx, cancel := context.WithCancel(base)
 	defer cancel()
 	wantErr := error(nil)
 	switch c.Ends {
 	case "deadline":
 		var cancelDL context.CancelFunc
-		ctx, cancelDL = context.WithTimeout(ctx, 15*time.Millisecond)
+		if c.EndsCause {
+			ctx, cancelDL = context.WithTimeoutCause(ctx, 15*time.Millisecond, errors.New("caller's budget used up"))
+		} else {
+			ctx, cancelDL = context.WithTimeout(ctx, 15*time.Millisecond)
+		}
 		defer cancelDL()
 		wantErr = context.DeadlineExceeded
 	case "cancel":
 		wantErr = context.Canceled
+		var cancelCause context.CancelCauseFunc
+		if c.EndsCause {
+			ctx, cancelCause = context.WithCancelCause(ctx)
+		}
 		go func() {
 			select {
 			case <-started:
 			case <-time.After(stallBound / 2):
+			}
+			if cancelCause != nil {
+				cancelCause(errors.New("user pressed stop"))
+				return
 			}
 			cancel()
 		}()
@@ -235,6 +256,9 @@ func c10Ends(c c10Case) *Outcome {
 	o.Observed = map[string]interface{}{"call": errStr(err), "handler_ctx_err": errStr(s.ctxErr), "client_context_err": errStr(s.ccErr)}
 	if s.cc == nil {
 		return o.failf("context-end/%s: ClientContext(ctx) is nil in the handler", c.Ends)
+	}
+	if s.hasLabel {
+		return o.failf("context-end/%s (stream=%v): the handler's context shows the profiler label tenant=%q of the caller's context", c.Ends, c.EndsStream, s.label)
 	}
 	if c.Ends == "live" {
 		if err != nil {
@@ -646,7 +670,7 @@ func propC10(c c10Case) *Outcome {
 
 func genC10(t *rapid.T) c10Case {
 	if rapid.IntRange(0, 19).Draw(t, "ends") == 0 {
-		return c10Case{Ends: rapid.SampledFrom([]string{"deadline", "cancel", "live"}).Draw(t, "endshow"), EndsStream: rapid.Bool().Draw(t, "endsstream"), EndsInt: rapid.Bool().Draw(t, "endsint")}
+		return c10Case{Ends: rapid.SampledFrom([]string{"deadline", "cancel", "live"}).Draw(t, "endshow"), EndsStream: rapid.Bool().Draw(t, "endsstream"), EndsInt: rapid.Bool().Draw(t, "endsint"), EndsCause: rapid.Bool().Draw(t, "endscause")}
 	}
 	if rapid.IntRange(0, 19).Draw(t, "again") == 0 {
 		return c10Case{Again: rapid.IntRange(1, 3).Draw(t, "againn"), AgainStream: rapid.Bool().Draw(t, "againstream")}
@@ -695,7 +719,7 @@ func genC10(t *rapid.T) c10Case {
 
 func init() { registerReplay("C10", propC10) }
 
-const c10Rule = "rapid-generated: 1..3 nesting levels (each in-process handler makes the next call from its own context, so the caller's context carries an enclosing call's incoming metadata, peer, transport stream and client-context key), 0..6 context values per level under string/int/struct/pointer/typed keys, outgoing metadata present or absent per level, incoming metadata and a foreign peer planted in the outermost context, optional deadline, unary or streaming per level, with/without server interceptors, optional cancellation of the outermost caller, optional metadata mutation on both sides, optional per-RPC credentials per level under a key of their own or under one the caller's metadata uses too; a separate mode where the caller's context really ends (15 ms deadline, or cancellation once the handler runs) or stays live after the call: the handler's ctx.Err() and ClientContext(ctx).Err() say DeadlineExceeded resp. Canceled, and the accessor's context is still live after the handler has returned; " +
+const c10Rule = "rapid-generated: 1..3 nesting levels (each in-process handler makes the next call from its own context, so the caller's context carries an enclosing call's incoming metadata, peer, transport stream and client-context key), 0..6 context values per level under string/int/struct/pointer/typed keys, outgoing metadata present or absent per level, incoming metadata and a foreign peer planted in the outermost context, optional deadline, unary or streaming per level, with/without server interceptors, optional cancellation of the outermost caller, optional metadata mutation on both sides, optional per-RPC credentials per level under a key of their own or under one the caller's metadata uses too; a separate mode where the caller's context really ends (15 ms deadline, or cancellation once the handler runs) or stays live after the call: the handler's ctx.Err() and ClientContext(ctx).Err() say DeadlineExceeded resp. Canceled (also when the caller's context ends with a cause of its own), profiler labels of the caller's context are not visible, and the accessor's context is still live after the handler has returned; " +
 	"oracle in every handler: ctx.Value(k) == nil for every key of every enclosing caller; ClientContext(ctx) is the caller's context and yields its values; incoming metadata = caller's outgoing metadata (none => none); peer network inproc; deadline equal to the caller's; ServerTransportStream.Method() is this call's method; cancellation reaches the innermost handler; metadata mutation on one side invisible on the other; " +
 	"also generated since the seeded rounds: callers mutating their metadata map after the call started, grpc-prefixed application keys (grpc-trace-bin, ...), a caller peer with TLS auth info (the handler's peer must stay purely in-process); " +
 	"non-trivial = >=1 caller value and (nested or outgoing metadata present); distinct by case hash"
